@@ -4,6 +4,7 @@ import importlib
 MODULES = [
     "externals",
     "utils",
+    "initializers",
     "reduction",
     "queues",
     "process_executor",
